@@ -8,6 +8,7 @@ COQ = os.path.join(VERIF, "coq")
 TARGET = os.path.join(CACHE, "target")
 GUARD = "device_driver_verif"
 NCPU = 16
+LOCK = os.path.join(CACHE, "coq.lock")
 
 ALLOWED_ASSUMPTIONS = set()  # no axiom is allowed: every theorem must be closed
 
@@ -63,7 +64,7 @@ def coq_makefile():
     mk = os.path.join(COQ, "Makefile")
     cp = os.path.join(COQ, "_CoqProject")
     if not os.path.exists(mk) or os.path.getmtime(mk) < os.path.getmtime(cp):
-        run(["coq_makefile", "-f", "_CoqProject", "-o", "Makefile"], cwd=COQ)
+        run(["flock", LOCK, "coq_makefile", "-f", "_CoqProject", "-o", "Makefile"], cwd=COQ)
 
 
 def coq_build(targets, timeout=2400):
@@ -72,7 +73,7 @@ def coq_build(targets, timeout=2400):
     if not ok:
         return False, "translator failed:\n" + out
     coq_makefile()
-    rc, out2 = run(["make", "-j%d" % NCPU] + list(targets), cwd=COQ, timeout=timeout)
+    rc, out2 = run(["flock", LOCK, "make", "-j%d" % NCPU] + list(targets), cwd=COQ, timeout=timeout)
     return rc == 0, out + out2
 
 
